@@ -530,6 +530,12 @@ def main():
             m3 = compare(cases, impl3, model, project)
             extra['portable386_mismatches'] = len(m3)
             mism += m3
+        if not replay:
+            ic = incoq_sample(pid, cases, model, random.Random(seed + 7), 6 if tier == 'quick' else 40)
+            extra.update(ic)
+            if ic.get('incoq_cases') and not ic.get('incoq_ok'):
+                harmless.append(('extracted OCaml model and in-Coq evaluation of the same model disagree (or the sample did not evaluate): %s' % ic.get('incoq_failed_line', ''),
+                                 dict(kind='extraction', log=ic.get('incoq_log', ''))))
         # property predicates evaluated on the implementation's own outputs
         violations += predicates(pid, cases, impl)
         # third voice: the specification evaluated independently (gen/oracle.py)
@@ -560,6 +566,25 @@ def main():
         notes.append('driver not available: correspondence skipped')
         if b is not None:
             notes += b.notes
+
+    # ---- independent re-check of the compiled proofs (thorough tier): coqchk -o
+    if tier == 'thorough' and cp['ok'] and not replay:
+        import hashlib
+        vo = '%s/Properties/%s.vo' % (COQ, pid)
+        try:
+            hsh = hashlib.sha256(open(vo, 'rb').read()).hexdigest()[:16]
+        except OSError:
+            hsh = 'none'
+        os.makedirs(V + '/_build/coqchk', exist_ok=True)
+        cache = '%s/_build/coqchk/%s_%s.log' % (V, pid, hsh)
+        if not os.path.exists(cache):
+            rc, out, dt = sh('timeout 5400 coqchk -silent -o -Q . Verif Verif.Properties.%s' % pid, cwd=COQ, timeout=5500)
+            open(cache, 'w').write(out + '\nrc=%d wall=%.0fs\n' % (rc, dt))
+        out = open(cache).read()
+        extra['coqchk'] = dict(ok=('rc=0' in out), summary=out[out.find('CONTEXT SUMMARY'):][:1500] if 'CONTEXT SUMMARY' in out else out[-800:])
+        if 'rc=0' not in out:
+            proof_ok = False
+            notes.append('coqchk did not accept the compiled proofs')
 
     # ---- verdict
     known = load_known()
@@ -631,6 +656,124 @@ def write_replay(pid, rp, kind):
         json.dump(rp, f, indent=1)
     return path
 
+
+
+# ------------------------------------------------------------------ in-Coq re-evaluation of a sample
+# Guards the extraction step (ExtrOcamlBasic + ExtrOcamlZBigInt, zarith, the OCaml driver):
+# a few of the cases of each run are evaluated by vm_compute INSIDE Coq on the same model
+# definitions and must reproduce what the extracted driver printed.
+def _zl(b):
+    return '[' + '; '.join(str(x) for x in b) + ']'
+
+
+def _ffel(v):
+    m = (1 << 64) - 1
+    return '(%d, %d, %d, %d)' % (v & m, (v >> 64) & m, (v >> 128) & m, (v >> 192) & m)
+
+
+def coq_term(line, out):
+    """(term, expected) as Coq source for the supported operations, or None."""
+    t = line.split()
+    op = t[0]
+    a = [ORC.parse(x) for x in t[1:]]
+
+    def pt_or_err(o):
+        if o == 'ERR':
+            return 'Err'
+        if o == 'PANIC':
+            return 'Panic'
+        x, y = o.split()
+        return 'Ok (%s, %s)' % (x, y)
+    try:
+        if op == 'padd':
+            x, y = out.split()
+            return ('BabyJub.Affine (BabyJub.Add (BabyJub.Projective (%d, %d)) (BabyJub.Projective (%d, %d)))' % tuple(a), '(%s, %s)' % (x, y))
+        if op == 'mul' and 0 <= a[0] < 2 ** 12:
+            x, y = out.split()
+            return ('BabyJub.Mul %d (%d, %d)' % tuple(a), '(%s, %s)' % (x, y))
+        if op == 'incurve':
+            return ('BabyJub.InCurve (%d, %d)' % tuple(a), out)
+        if op == 'compress':
+            return ('BabyJub.Compress (%d, %d)' % tuple(a), _zl(bytes.fromhex(out[1:])))
+        if op == 'decompress':
+            return ('BabyJub.Decompress %s' % _zl(a[0]), pt_or_err(out))
+        if op == 'lebytes':
+            return ('Utils.BigIntLEBytes (%d)' % a[0], _zl(bytes.fromhex(out[1:])))
+        if op == 'fromle':
+            return ('Utils.SetBigIntFromLEBytes %s' % _zl(a[0]), out)
+        if op == 'hexdecinto':
+            return ('Utils.HexDecodeInto %d %s' % (a[0], _zl(a[1])), 'Err' if out == 'ERR' else 'Ok ' + _zl(bytes.fromhex(out[1:])))
+        if op == 'keccak' and len(a) == 1 and a[0] is not None and len(a[0]) < 300:
+            return ('KeccakStream.Hash [%s]' % _zl(a[0]), _zl(bytes.fromhex(out[1:])))
+        if op == 'blake' and len(a[0]) < 300:
+            return ('Blake512.blake512 %s' % _zl(a[0]), _zl(bytes.fromhex(out[1:])))
+        if op == 'mimc7':
+            return ('Mimc7.MIMC7Hash (%d) (%d)' % tuple(a), out)
+        if op == 'gold':
+            return ('GoldPoseidon.Hash GoldTables.c GoldTables.s GoldTables.p GoldTables.mcirc GoldTables.mdiag GoldTables.NROUNDSF GoldTables.NROUNDSP GoldTables.mLen %s %s' % (_zl(a[0][:8]), _zl(a[0][8:])),
+                    '[' + '; '.join(out.strip('[]').split(',')) + ']')
+        if op == 'poseidon' and len(a[2]) <= 2 and out not in ('PANIC',):
+            n = len(a[2])
+            tabs = '[(PoseidonT2.RP, PoseidonT2.C, PoseidonT2.S, PoseidonT2.M, PoseidonT2.P); (PoseidonT3.RP, PoseidonT3.C, PoseidonT3.S, PoseidonT3.M, PoseidonT3.P)]'
+            exp = 'Err' if out == 'ERR' else 'Ok [' + '; '.join(out.strip('[]').split(',')) + ']'
+            # only the table of the width in use matters; guards need length tables >= n: pad the list to 16 entries
+            return ('Poseidon.HashWithStateEx Params.q PoseidonMeta.NROUNDSF (%s ++ repeat (O, [], [], [], []) 14) %s (%d) (%d)' % (tabs, _zl(a[2]), a[0], a[1]), exp)
+        if op == 'ff' and t[2] in ('add', 'sub', 'mul') and int(t[3]) < 3:
+            f = {'add': 'addGeneric', 'sub': 'subGeneric', 'mul': 'mulGeneric'}[t[2]]
+            return ('FfLimbs.%s %s %s' % (f, _ffel(a[3]), _ffel(a[4])), _ffel(int(out)))
+        if op == 'ff' and t[2] in ('neg', 'double', 'square'):
+            f = {'neg': 'negGeneric', 'double': 'doubleGeneric', 'square': 'square'}[t[2]]
+            return ('FfLimbs.%s %s' % (f, _ffel(a[3])), _ffel(int(out)))
+        if op == 'ff' and t[2] in ('halve', 'mulby3', 'mulby5', 'mulby13', 'frommont'):
+            f = {'halve': 'halve', 'mulby3': 'mulBy3', 'mulby5': 'mulBy5', 'mulby13': 'mulBy13', 'frommont': 'fromMontGeneric'}[t[2]]
+            return ('FfLimbs.%s %s' % (f, _ffel(a[2])), _ffel(int(out)))
+        if op == 'ffg' and t[1] in ('add', 'sub', 'mul') and int(t[2]) < 3:
+            f = {'add': 'addGeneric', 'sub': 'subGeneric', 'mul': 'mulGeneric'}[t[1]]
+            return ('FfgLimbs.%s %d %d' % (f, a[2], a[3]), out)
+        if op == 'ffg' and t[1] == 'setuint64':
+            return ('FfgLimbs.setUint64 %d' % a[1], out)
+        if op == 'ffg' and t[1] == 'inverse':
+            return ('FfgLimbs.inverse %d' % a[2], out)
+    except (ValueError, IndexError, TypeError):
+        return None
+    return None
+
+
+def incoq_sample(pid, cases, model, rng, limit):
+    picks, seen = [], {}
+    idx = list(range(min(len(cases), len(model))))
+    rng.shuffle(idx)
+    for i in idx:
+        line = cases[i][0]
+        if model[i].startswith(('DRIVER', 'UNKNOWN', 'OUTOFFUEL')):
+            continue
+        key = ' '.join(line.split()[:3 if line.startswith('ff') else 1])
+        if seen.get(key, 0) >= 2:
+            continue
+        ct = coq_term(line, model[i])
+        if ct:
+            seen[key] = seen.get(key, 0) + 1
+            picks.append((line, ct))
+        if len(picks) >= limit:
+            break
+    if not picks:
+        return dict(incoq_cases=0)
+    src = ['From Coq Require Import ZArith List Bool.', 'Import ListNotations.',
+           'From Verif Require Import Lib.Params Lib.Octets Model.Outcome Model.Utils Model.BabyJub Model.Poseidon Model.GoldPoseidon',
+           '  Model.Mimc7 Model.FfLimbs Model.FfgLimbs Model.KeccakStream Spec.Blake512.',
+           'From Verif Require Gen.PoseidonT2 Gen.PoseidonT3 Gen.PoseidonMeta Gen.GoldTables.', 'Local Open Scope Z_scope.']
+    for n, (line, (term, exp)) in enumerate(picks):
+        src.append('(* %s *)' % line[:150].replace('*)', '* )'))
+        src.append('Example e%d : (%s) = (%s).\nProof. vm_compute. reflexivity. Qed.' % (n, term, exp))
+    path = '%s/incoq_%s.v' % (WORK, pid)
+    open(path, 'w').write('\n'.join(src) + '\n')
+    rc, out, dt = sh('timeout 600 coqc -Q %s Verif -Q %s VerifWork %s' % (COQ, WORK, path), cwd=WORK, timeout=700)
+    res = dict(incoq_cases=len(picks), incoq_ok=(rc == 0), incoq_wall_s=round(dt, 1))
+    if rc != 0:
+        res['incoq_log'] = out[-1500:]
+        m = re.search(r'line (\d+)', out)
+        res['incoq_failed_line'] = m.group(0) if m else ''
+    return res
 
 # ------------------------------------------------------------------ predicates on implementation outputs
 def predicates(pid, cases, impl):
